@@ -328,6 +328,16 @@ func EvalAll(c *core.Ctx, line string) []*core.Case {
 			if m.IsValid() != nil || m.Type() != 134 {
 				return fmt.Sprintf("ICMP6SendRouterAdvertisement emitted ICMPv6 type %d, not a router advertisement (134)", fr[54]), ""
 			}
+			// the advertised prefixes must be the requested ones, in order (independent option walk: type 3, 32 bytes)
+			var got []string
+			for o := fr[54+16:]; len(o) >= 2 && o[1] != 0 && len(o) >= int(o[1])*8; o = o[int(o[1])*8:] {
+				if o[0] == 3 && o[1] == 4 {
+					got = append(got, fmt.Sprintf("%s/%d", hx(o[16:32]), o[2]))
+				}
+			}
+			if want := strings.Split(a[0], ","); strings.Join(got, ",") != strings.Join(want, ",") {
+				return fmt.Sprintf("router advertisement carries prefixes %v, requested %v", got, want), ""
+			}
 			return "", ""
 		}
 		return out
